@@ -33,7 +33,11 @@ HOME = {
  ("cdi", "update"): ["C11", "C20", "C12"], ("cdi", "newSpec"): ["C05", "C08", "C01"], ("cdi", "ReadSpec"): ["C08", "C05"], ("cdi", "write"): ["C10", "C16"],
  ("cdi", "validate"): ["C05", "C08"], ("cdi", "Apply"): ["C03", "C14", "C02"],
 }
-MAXCHECKS = 5
+MAXCHECKS = 4
+MAXCOST = 100  # checks slower than this (C08, C15) only run where they are a function's home check
+FILEHOME = {"pkg/parser/parser.go": ["C07"], "pkg/cdi/annotations.go": ["C15"], "specs-go/version.go": ["C06", "C05"],
+            "internal/validation/k8s/validation.go": ["C05", "C17"], "internal/validation/validate.go": ["C05", "C17"],
+            "pkg/cdi/device.go": ["C05", "C14", "C01"], "schema/schema.go": ["C17", "C18"], "cmd/validate/validate.go": ["C19"]}
 
 def pkgof(rel):
     if rel.startswith("cmd/"): return "cmd"
@@ -61,7 +65,9 @@ def main():
             m = idx[mid]
             checks = sorted([pid for pid in ENC if (pkgof(rel), m["func"]) in ENC[pid]], key=lambda p: COST[p])
             home = [p for p in HOME.get((pkgof(rel), m["func"]), []) if p in checks]
-            checks = home if home else checks[:MAXCHECKS]
+            if not home:
+                home = [p for p in FILEHOME.get(rel, []) if p in checks]
+            checks = home if home else [p for p in checks if COST[p] <= MAXCOST][:MAXCHECKS]
             r = {"func": m["func"], "line": m["line"], "kind": m["kind"], "orig": m["orig"][:80], "repl": m["repl"][:80], "checks": {}, "caught_by": None}
             shutil.copy("/tmp/mut/%s/%s.go" % (key, mid), dst)
             for pid in checks:
